@@ -386,6 +386,30 @@ Definition mode_dot_e (T M : tensor F) (mode : nat) (tr : bool) : res (tensor F)
   | _ => Err
   end.
 
+(* ------------------------------------------------------------------ mode_dot with the mode as a Python int *)
+(* core_tenalg.mode_dot indexes shapes and moves axes with `mode`, which NumPy resolves from the end when negative; an
+   out-of-range mode raises IndexError *)
+Definition mode_dot_z (T M : tensor F) (z : Z) (tr : bool) : res (tensor F) :=
+  match py_index (ndim T) z with Some k => mode_dot T M k tr | None => Err end.
+(* einsum_tenalg.mode_dot AS IT IS: the operand's labels are picked with tensor_modes[mode] (right for negative modes too) and a
+   vector pops result_modes[mode] (right), but the new label of a matrix operand is placed by the comparison `i == mode`,
+   which never holds for a negative mode: the result labels stay those of the tensor and the new label is summed out *)
+Definition mode_dot_e_z (T M : tensor F) (z : Z) (tr : bool) : res (tensor F) :=
+  match py_index (ndim T) z with
+  | None => Err
+  | Some k =>
+      if (0 <=? z)%Z then mode_dot_e T M k tr
+      else match shape M with
+           | [a; b] =>
+               let N := ndim T in
+               if (if tr then a else b) =? nth k (shape T) 0 then
+                 let M' := if tr then conj_t (transpose_rev M) else M in
+                 Ok (einsum [seq 0 N; [N + 1; k]] (seq 0 N) [T; M'])
+               else Err
+           | _ => mode_dot_e T M k tr
+           end
+  end.
+
 (* state of the equation-building loop of einsum multi_mode_dot *)
 Record mmd_state := mkS { s_ins : list (list nat); s_ops : list (tensor F); s_out : list nat;
                           s_counter : nat; s_dec : nat }.
